@@ -222,10 +222,10 @@ def run(model: RepoModel, rep, tier: str):
 DU = "basics/stmt_def_use_analysis.py"
 
 
-def _r4_keyword_order(model: RepoModel, rep):
+def _r4_keyword_order(model: RepoModel, rep, RID: str = "C07.R4"):
     """Keyword arguments travel as a positional tail of used_symbols; producer and consumers pair them with the key names by
     enumerating the keys of literal_eval(stmt.named_args) independently.  All enumerations must use the same order."""
-    rep.rule("C07.R4", "argument binding: every site that pairs the keyword-argument tail of used_symbols with key names enumerates the "
+    rep.rule(RID, "argument binding: every site that pairs the keyword-argument tail of used_symbols with key names enumerates the "
                        "keys of stmt.named_args in the same order (the producer in the def-use pass, the call-format writer, prepare_args)", 3)
     sites = []      # (rel, func, line, klass, text)
     for rel in (DU, SS, GSS):
@@ -278,15 +278,15 @@ def _r4_keyword_order(model: RepoModel, rep):
     for rel, f, ln, kl, txt in sites:
         key = f"{rel}::{f.qualname}::keyword keys enumerated as `{txt}`"
         if len(classes) == 1:
-            rep.holds("C07.R4", key, rel, ln, f"order class `{kl}`, same at all {len(sites)} sites")
+            rep.holds(RID, key, rel, ln, f"order class `{kl}`, same at all {len(sites)} sites")
         elif kl != major or len(classes[major]) * 2 <= len(sites):
             others = "; ".join(f"{r}:{l} `{t}` ({k})" for r, _f, l, k, t in sites if (r, l) != (rel, ln))
-            rep.violation("C07.R4", key, rel, ln,
+            rep.violation(RID, key, rel, ln,
                           f"this site enumerates the keyword arguments in `{kl}` order while the cooperating sites use another order ({others}): "
                           f"with two or more keywords not written in that order, values are paired with the wrong parameter names -- a callback "
                           f"passed by keyword is bound to the wrong parameter and its call edge is missing")
         else:
-            rep.holds("C07.R4", key, rel, ln, f"order class `{kl}` (the majority order)")
+            rep.holds(RID, key, rel, ln, f"order class `{kl}` (the majority order)")
 
 
 def _r5_per_callee_accumulation(model: RepoModel, rep, st, gss):
